@@ -79,6 +79,12 @@ pub fn ops_full() -> Vec<Op> {
     // a recipient assertion with a FIXED sealed message (the ephemeral key of add_recipient cannot be seeded; the real call is exercised in C10)
     v.push(op("add_recipient(fixed sealed message)", |e| { let sm = bc_components::SealedMessage::try_from(CBOR::try_from_hex(SEALED_HEX).ok()?).ok()?; e.add_assertion_envelope(Envelope::new_assertion(known_values::HAS_RECIPIENT, sm)).ok() }));
     v.push(op("add_type", |e| Some(e.add_type("T"))));
+    v.push(op("add_assertions_salted(fixed)", |e| { let a = Envelope::new_assertion("pm", "om").add_salt_instance(fixed_salt()); Some(e.add_assertions(&[a, Envelope::new_assertion("p1", "o1")])) }));
+    v.push(op("add_optional_assertion(None)", |e| Some(e.add_optional_assertion("po", None::<&str>))));
+    v.push(op("proof(subject)", |e| e.proof_contains_target(&e.subject())));
+    v.push(op("proof(first-assertion)", |e| { let a = e.assertions(); a.first().and_then(|x| e.proof_contains_target(x)) }));
+    v.push(op("sign(ed25519)=wrap+add_signature", |e| Some(e.sign(&ed_key()))));
+    v.push(op("sskr_split(1-of-1)[0]", |e| { let spec = bc_components::SSKRSpec::new(1, vec![bc_components::SSKRGroupSpec::new(1, 1).ok()?]).ok()?; let mut rng = bc_rand::SeededRandomNumberGenerator::new([1, 2, 3, 4]); e.sskr_split_using(&spec, &bind::key0(), &mut rng).ok()?.into_iter().flatten().next() }));
     v.push(op("add_attachment", |e| Some(e.add_attachment("pl", "v", Some("c")))));
     v
 }
